@@ -457,6 +457,21 @@ fn case_esc(case: &Value) -> Value {
     }
 }
 
+/// kind "lit": a whole script (code points) whose value is a string: -> {"lit": [0, bytes..] | [2] | [9]}
+fn case_lit(case: &Value) -> Value {
+    let src = cps_to_string(&case["src"]).unwrap_or_default();
+    let mut sv = ScriptVm::new();
+    let chunk = match sv.compile(&src, CompilerSettings::default()) {
+        Ok(c) => c,
+        Err(_) => return json!({"lit": [2]}),
+    };
+    match sv.vm.run(chunk) {
+        Ok(KValue::Str(s)) => json!({"lit": enc_str(s.as_str())}),
+        Ok(_) => json!({"lit": [9]}),
+        Err(_) => json!({"lit": [2]}),
+    }
+}
+
 /// kind "fparse": the format options the parser produces for '{x:<spec>}'
 /// -> [0, align, w?, w, p?, p, r?, r, fill?, fill code points..] | [2] error | panic
 fn case_fparse(case: &Value) -> Value {
@@ -517,6 +532,7 @@ fn main() {
             "str" => case_str(case),
             "fmt" => case_fmt(case),
             "esc" => case_esc(case),
+            "lit" => case_lit(case),
             "fparse" => case_fparse(case),
             _ => json!({"skip": "unknown kind"}),
         }));
